@@ -32,7 +32,11 @@ def akai_tree(vol_names, file_names):
             for f, fn in enumerate(file_names):
                 n = 12 + g
                 g += 1
-                if fn.startswith("prog:"):
+                if fn.split(":")[0] in ("drum", "ql", "fx"):
+                    # DRUM / QL / EFFECT files: legal on a disk, not items of the tree (nothing is listed for them)
+                    ft = {"drum": 0x64, "ql": 0x71, "fx": 0x78}[fn.split(":")[0]]
+                    files.append({"name": fn.split(":", 1)[1], "kind": "raw", "ftype": ft, "chain": [sec], "data": bytes(range(64)).hex()})
+                elif fn.startswith("prog:"):
                     # a PROGRAM file (another kind of item, same name space): told apart by the sample name its keygroup refers to
                     from mcv.gen import akai_program as AP
                     ref = "ZQ%04d" % g
@@ -378,7 +382,7 @@ class Check(CheckBase):
     level = "exploration"
     title = "Every item `ls` shows can be addressed by the names shown; other paths say so"
     rule = ("trees whose names come from near-collision / hostile alphabets at every level (AKAI: 2 partitions x volume-name "
-            "pairs x file-name pairs, and volumes holding a sample and a PROGRAM of the same name; Roland: volume/performance/sample name pairs; CDDA: title pairs and triples, titles of 19..60 characters in every order of widths, single-entry directories); for every "
+            "pairs x file-name pairs, and volumes holding a sample and a PROGRAM of the same name, or files of kinds that are not listed (DRUM, QL, EFFECT); Roland: volume/performance/sample name pairs; CDDA: title pairs and triples, titles of 19..60 characters in every order of widths, single-entry directories); for every "
             "node with a non-blank printed name: path of printed names x separator {/,\\,\\\\} x blanks {none, around every "
             "token, around the whole path incl. behind a trailing separator} x trailing separator {no,yes} must print what the canonical path prints, the right item (position-coded "
             "marker per leaf) and sibling names pairwise distinct; AKAI lower-case / colon-less forms may resolve to the right "
@@ -401,7 +405,9 @@ class Check(CheckBase):
         cases.append({"fmt": "akai", "vols": ["A", "A", "A."], "files": ["A L", "A", "A R", "A"]})
         # a sample and a program of one volume with the same name (two kinds of items share the volume's name space)
         for files in (["KICK", "prog:KICK"], ["prog:KICK", "KICK"], ["A", "prog:A", "A"], ["prog:A", "prog:A", "A."],
-                      ["prog:A L", "A L", "A R"], ["prog:P", "Q"]):
+                      ["prog:A L", "A L", "A R"], ["prog:P", "Q"],
+                      # ... and files of the kinds the tool does not list (drum settings, cue lists, effects) among them
+                      ["KICK", "drum:KIT"], ["drum:KICK", "KICK"], ["drum:D", "ql:Q", "fx:E", "A", "prog:A"], ["drum:ONLY"]):
             cases.append({"fmt": "akai", "vols": ["VOL", "VOL B"], "files": files})
         # names wider than the listing's default column (20 characters), in every order of widths: the printed table is the
         # only thing a user can read the names from
